@@ -107,9 +107,11 @@ def s_forall(xs, pred):
     xs = force(xs)
     if isinstance(xs, AList):
         return xs.forall(pred)
-    from .seq import ASet
+    from .seq import ASet, ADict
     if isinstance(xs, ASet):
         return xs.forall(pred)
+    if isinstance(xs, ADict):
+        return xs.keys_al().forall(pred)
     I = interp_ref[0]
     return ops.s_and(*[_as_bool(merged_call(pred, [x], exc_as_false=True)) for x in I.iterate(xs)])
 
@@ -118,8 +120,31 @@ def s_exists(xs, pred):
     xs = force(xs)
     if isinstance(xs, AList):
         return xs.exists(pred)
+    from .seq import ASet, ADict
+    if isinstance(xs, ASet):
+        return xs.exists(pred)
+    if isinstance(xs, ADict):
+        return xs.keys_al().exists(pred)
     I = interp_ref[0]
     return ops.s_or(*[_as_bool(merged_call(pred, [x], exc_as_false=True)) for x in I.iterate(xs)])
+
+
+def s_indices(xs):
+    from . import seq
+    return seq.indices(xs)
+
+
+def s_total(xs, term):
+    from . import seq
+    xs = force(xs)
+    if isinstance(xs, (AList, seq.ASet, seq.ADict)):
+        al = seq.as_al(xs)
+        return seq.bigsum(al.mapfilter(lambda x: interp_ref[0].call(term, [x], {})))
+    I = interp_ref[0]
+    acc = 0
+    for x in I.iterate(xs):
+        acc = I.binop('+', acc, I.call(term, [x], {}))
+    return acc
 
 
 def s_ite(c, a, b):
@@ -192,6 +217,7 @@ def spec_module():
             'contract': Builtin('contract', _contract), 'lemma': Builtin('lemma', _lemma),
             'eq': _B('eq', s_eq), 'implies': _B('implies', s_implies), 'iff': _B('iff', s_iff),
             'forall': _B('forall', s_forall), 'exists': _B('exists', s_exists), 'ite': _B('ite', s_ite),
+            'indices': _B('indices', s_indices), 'total': _B('total', s_total),
             'is_real': _B('is_real', s_is_real), 'ge': _B('ge', s_ge), 'le': _B('le', lambda a, b: s_ge(b, a)),
             'json_file': _B('json_file', lambda doc: __import__('pyvc.builtins_', fromlist=['VFile']).VFile(__import__('pyvc.builtins_', fromlist=['_text_dump'])._text_dump('json', doc))),
             'raised': Builtin('raised', lambda a, k: s_raised(*a)), 'nonsingular': _B('nonsingular', s_nonsingular),
@@ -258,6 +284,86 @@ class SymGen:
         options = interp_ref[0].iterate(options)
         t = z3.Int(name)
         self.leaves[name] = ('choice', t)
+        CTX.path.assume(z3.And(t >= 0, t < len(options)))
+        for i, o in enumerate(options[:-1]):
+            if CTX.path.branch(t == i):
+                return o
+        return options[-1]
+
+    def g_list(self, name, element, min_len=0, max_len=None):
+        """Abstract list of symbolic length; `element(g_i)` is evaluated once on the generic index."""
+        from . import seq
+        n = z3.Int(name + '.len')
+        CTX.path.assume(n >= min_len)
+        k = seq.fresh_index('g')
+        sub = IndexedSymGen(self, name, k)
+        I = interp_ref[0]
+        outs = seq.generic_eval(k, [k >= 0, k < n], lambda: I.call(element, [sub], {}))
+        if any(kind == 'exc' for _, kind, _ in outs):
+            raise OutOfSubset('list element generator raises')
+        value = seq.merged([(c, v) for c, kind, v in outs])
+        self.leaves[name] = ('list', {'len': n, 'subs': sub.subs, 'min': min_len})
+        al = seq.AL(n, k, True, value, 'input ' + name)
+        al.frozen_input = True
+        return al
+
+
+class IndexedSymGen:
+    """Leaves of the generic element of an abstract list: uninterpreted functions of the index."""
+
+    def __init__(self, outer, name, k):
+        self.outer, self.name, self.k = outer, name, k
+        self.subs = {}
+
+    def pyvc_attr(self, I, name):
+        m = getattr(self, 'g_' + name, None)
+        if m is None:
+            from .ops import raise_py
+            raise_py('AttributeError', 'gen.' + name)
+        return Builtin('gen.' + name, lambda args, kw: m(*args, **kw))
+
+    def _fun(self, sub, kind, sort):
+        f = z3.Function(f'{self.name}[].{sub}', z3.IntSort(), sort)
+        self.subs[sub] = (kind, f)
+        return f
+
+    def g_real(self, sub, lo=None, hi=None):
+        t = self._fun(sub, 'real', z3.RealSort())(self.k)
+        if lo is not None:
+            CTX.path.assume(t >= lift(lo).rez())
+        if hi is not None:
+            CTX.path.assume(t <= lift(hi).rez())
+        return SNum(t)
+
+    def g_pos(self, sub):
+        t = self._fun(sub, 'real', z3.RealSort())(self.k)
+        CTX.path.assume(t > 0)
+        return SNum(t)
+
+    def g_int(self, sub, lo=None, hi=None):
+        t = self._fun(sub, 'int', z3.IntSort())(self.k)
+        if lo is not None:
+            CTX.path.assume(t >= lo)
+        if hi is not None:
+            CTX.path.assume(t <= hi)
+        return SNum(t)
+
+    def g_complex(self, sub):
+        re = self._fun(sub + '.re', 'real', z3.RealSort())(self.k)
+        im = self._fun(sub + '.im', 'real', z3.RealSort())(self.k)
+        self.subs.pop(sub + '.re'), self.subs.pop(sub + '.im')
+        self.subs[sub] = ('complex', (re.decl(), im.decl()))
+        return SNum(re, im)
+
+    def g_bool(self, sub):
+        return SBool(self._fun(sub, 'bool', z3.BoolSort())(self.k))
+
+    def g_label(self, sub):
+        return SLabel(self._fun(sub, 'label', z3.RealSort())(self.k))
+
+    def g_choice(self, sub, options):
+        options = interp_ref[0].iterate(options)
+        t = self._fun(sub, 'choice', z3.IntSort())(self.k)
         CTX.path.assume(z3.And(t >= 0, t < len(options)))
         for i, o in enumerate(options[:-1]):
             if CTX.path.branch(t == i):
